@@ -450,3 +450,208 @@ Proof.
     + exfalso. destruct C as [_ C]. destruct C as [Cna _ _ _ _ _ _ _ _ _ _ _ _]. specialize (Cna (FAddHack due)). rewrite Hp in Cna.
       specialize (Cna (or_introl eq_refl)). discriminate.
 Qed.
+
+(* ------------------------------------------------------------------ a whole batch *)
+Definition batchfacts (n : nat) (s s1 : st) : Prop :=
+  exists apps newt, pending s1 = skipn n (pending s) ++ apps /\ ~ In FStop apps /\ nstart apps = 0%nat /\
+    (count_rc apps <> 0%nat -> In FStop (firstn n (pending s)) /\ nretry s = 0%nat) /\
+    timers s1 = timers s ++ newt /\ newretry (now s) newt /\ now s1 = now s /\ alive s1 = alive s.
+
+Lemma nretry_app s s' newt : timers s' = timers s ++ newt -> (nretry s <= nretry s')%nat.
+Proof. unfold nretry. intros ->. rewrite filter_app, app_length. lia. Qed.
+
+Lemma run_n_T n : forall s q s1 ev, Inv s -> Tinv s q -> (n <= length (pending s))%nat -> run_n n s = Some (s1, ev) ->
+  Inv s1 /\ Tinv s1 q /\ batchfacts n s s1.
+Proof.
+  induction n as [|n IH]; intros s q s1 ev I T Hn; cbn [run_n].
+  - intros [= <- _]. split; auto. split; auto. exists [], []. rewrite !app_nil_r. cbn [skipn firstn].
+    split; [reflexivity|]. split; [tauto|]. split; [reflexivity|]. split; [intros Z; exfalso; apply Z; reflexivity|].
+    split; [reflexivity|]. split; [intros t []|]. split; reflexivity.
+  - pose proof (run_one_I s I) as W. unfold bind. destruct (run_one s) as [[s2 e2]|] eqn:E; [|discriminate]. cbn in W.
+    destruct (run_n n s2) as [[s3 e3]|] eqn:E2; [|discriminate]. intros [= <- _].
+    destruct (run_one_T _ _ _ _ I T E) as [T2 F2].
+    destruct F2 as [[Hp ->]|(f & r & app & newt & Hp & Hp2 & F1 & F2 & F3 & F4 & F5 & F6 & F7)].
+    + rewrite Hp in Hn. cbn in Hn. lia.
+    + rewrite Hp in Hn. cbn in Hn. assert (Hn2 : (n <= length r)%nat) by lia.
+      destruct (IH s2 q s3 e3 W T2 ltac:(rewrite Hp2, app_length; lia) E2) as (I3 & T3 & (apps & newt2 & B1 & B2 & B3 & B4 & B5 & B6 & B7 & B8)).
+      split; auto. split; auto. exists (app ++ apps), (newt ++ newt2). rewrite Hp. cbn [skipn firstn].
+      rewrite Hp2, skipn_app in B1. replace (n - length r)%nat with 0%nat in B1 by lia. cbn [skipn] in B1.
+      split; [rewrite B1, <- app_assoc; reflexivity|].
+      split; [intros Hi; apply in_app_or in Hi; tauto|].
+      split; [unfold nstart in *; rewrite filter_app, app_length; lia|].
+      split.
+      * rewrite count_rc_app. intros Z. destruct (count_rc app) eqn:Ca.
+        -- destruct (B4 ltac:(lia)) as [Hi Hr]. split.
+           ++ right. rewrite Hp2, firstn_app in Hi. replace (n - length r)%nat with 0%nat in Hi by lia. cbn in Hi. rewrite app_nil_r in Hi. exact Hi.
+           ++ pose proof (nretry_app _ _ _ F4). lia.
+        -- destruct (F3 ltac:(congruence)) as [-> Hr]. split; auto. left. reflexivity.
+      * split; [rewrite B5, F4, <- app_assoc; reflexivity|].
+        split; [|split; congruence].
+        intros t Hi. apply in_app_or in Hi. destruct Hi as [Hi|Hi]; auto. rewrite F6 in B6. auto.
+Qed.
+
+Lemma batch_Tinv s q s1 : Inv s -> Tinv s q -> Tinv s1 q -> batchfacts (length (pending s)) s s1 ->
+  (k_dead s1 = false -> k_dead s = false) -> (pending s <> [] -> now s - q <= Bq) -> Tinv s1 (now s).
+Proof.
+  intros I T [Td Ts Tr Te Ta Tb] (apps & newt & B1 & B2 & B3 & B4 & B5 & B6 & B7 & B8) Hkd Hlive.
+  rewrite skipn_all, firstn_all in *. cbn [app] in B1.
+  assert (Hold : forall d k, In (d, k) (timers s1) -> In (d, k) (timers s) \/ (k = TRetry /\ now s + 500 <= d)).
+  { intros d k Hi. rewrite B5 in Hi. apply in_app_or in Hi. destruct Hi as [Hi|Hi]; auto. right. destruct (B6 _ Hi). auto. }
+  split; auto; try lia.
+  - rewrite B1. intros Z d Hi. destruct (B4 Z) as [_ Hr]. destruct (Hold _ _ Hi) as [Ho|[_ Ho]]; auto. exfalso. eapply nretry_0_no; eauto.
+  - rewrite B1. intros A D [H|H]; tauto.
+  - rewrite B1. intros A D Z d Hi. destruct (B4 Z) as [Hs _]. destruct (Hold _ _ Hi) as [Ho|[E _]]; [|discriminate].
+    destruct T as [_ _ _ _ Ta0 _]. pose proof (Ta0 ltac:(congruence) (Hkd D) (or_introl Hs) _ Ho).
+    assert (pending s <> []) by (intros E; rewrite E in Hs; destruct Hs). specialize (Hlive H0). lia.
+Qed.
+
+(* ------------------------------------------------------------------ timers *)
+Lemma fire_all_teff l : forall s, teffM s (fire_all l s).
+Proof.
+  induction l as [|t r IH]; intros s; cbn [fire_all]; [apply teff_refl|].
+  apply teffM_bind; [|intros; apply IH]. unfold fire. destruct (snd t); [apply startInLoop_teff|apply teff_refl].
+Qed.
+
+(* ------------------------------------------------------------------ one op *)
+Lemma lcontract_contract s q o : Inv s -> Tinv s q -> lcontract q s o = true -> step_core s o <> None -> contract s o = true.
+Proof.
+  intros I T L Hs. destruct o; cbn in *; auto.
+  destruct (min_due (timers s)) eqn:E; [|exfalso; apply Hs; reflexivity]. apply (live_timely s q); auto; rewrite E; discriminate.
+Qed.
+
+Lemma Tinv_alive s q s1 q1 : Tinv s q -> alive s1 = true -> now s1 = now s -> k_delay s1 = k_delay s -> timers s1 = timers s ->
+  count_rc (pending s1) = count_rc (pending s) -> (q1 = q \/ (pending s = [] /\ q1 <= now s1)) -> Tinv s1 q1.
+Proof.
+  intros [Td Ts Tr Te Ta Tb] A N D Tm C Hq. split; try congruence.
+  - destruct Hq as [->|[_ ?]]; lia.
+  - rewrite C, Tm. destruct Hq as [->|[Hp _]]; auto. rewrite Hp. intros Z. exfalso. apply Z. reflexivity.
+Qed.
+
+Definition qnext (q : Z) (s s1 : st) (o : op) : Z :=
+  match pending s with [] => now s1 | _ => if is_RunPending o then now s1 else q end.
+Lemma qnext_ok q s s1 o : is_RunPending o = false -> now s <= now s1 -> qnext q s s1 o = q \/ (pending s = [] /\ qnext q s s1 o <= now s1).
+Proof. intros H N. unfold qnext. rewrite H. destruct (pending s); [right; split; auto; lia|auto]. Qed.
+
+Lemma some_inj {A} (a b : A) : Some a = Some b -> a = b.
+Proof. congruence. Qed.
+
+Lemma core_T s q o s1 ev1 : Inv s -> Tinv s q -> lcontract q s o = true ->
+  step_core s o = Some (Some (s1, ev1)) -> Tinv s1 (qnext q s s1 o).
+Proof.
+  intros I T L H. pose proof I as (K & Kd & St & C & Cr & X).
+  assert (TE : forall sf, tsame s sf -> forall m e, m = Some (s1, e) -> teffM sf m -> is_RunPending o = false -> Tinv s1 (qnext q s s1 o)).
+  { intros sf TS m e -> TM R. cbn in TM. assert (teff s s1) by (eapply teff_trans; [apply tsame_teff; eauto|auto]).
+    eapply teff_Tinv; eauto. apply qnext_ok; auto. destruct H0 as (N & _). lia. }
+  assert (TS0 : tsame s s) by (unfold tsame; auto 10).
+  destruct o; cbn [step_core] in H.
+  - (* Connect *) destruct (negb (user_api_ok s)); [discriminate|]. apply some_inj in H. apply bind_some_inv' in H. destruct H as (rest & H & _).
+    eapply (TE (set_k_connect (set_c_connect s true) true)); [unfold tsame; cbn; auto 10|exact H|apply startInLoop_teff|reflexivity].
+  - destruct (negb (user_api_ok s)); [discriminate|]. apply some_inj in H.
+    destruct (connection (set_c_connect s false)).
+    + eapply (TE (set_c_connect s false)); [unfold tsame; cbn; auto 10|exact H|apply conn_shutdown_teff|reflexivity].
+    + eapply (TE (set_c_connect s false)); [unfold tsame; cbn; auto 10|exact H|apply teff_refl|reflexivity].
+  - (* Stop *) destruct (negb (user_api_ok s)) eqn:U; [discriminate|]. apply negb_false_true in U. destruct (api_ok _ U) as [Al _].
+    injection H as <- _. apply (Tinv_alive s q); auto; try (apply qnext_ok; auto; cbn; lia); cbn; auto.
+    rewrite count_rc_snoc. cbn. lia.
+  - destruct (negb (user_api_ok s)); [discriminate|]. apply some_inj in H. eapply (TE (set_c_retry s true)); [unfold tsame; cbn; auto 10|exact H|apply teff_refl|reflexivity].
+  - (* Destroy *)
+    destruct (negb (user_api_ok s) || xc s || xs s || xd s) eqn:U; [discriminate|].
+    apply orb_false_elim in U. destruct U as [U _]. apply orb_false_elim in U. destruct U as [U _]. apply orb_false_elim in U. destruct U as [U _].
+    apply negb_false_true in U. destruct (api_ok _ U) as [Al _]. apply some_inj in H.
+    assert (NoHack : forall d, ~ In (d, THack) (timers s)) by (intros d Hi; eapply all_retry_no_hack; eauto).
+    destruct T as [Td Ts Tr Te Ta Tb].
+    unfold destroy_rest in H. destruct (connection s) as [c|] eqn:Hcn.
+    + cbn in L. unfold destroy_ok in L. rewrite Hcn in L. cbn in L. rewrite existsb_has_k in L.
+      assert (Hk : has_k (pending s) = false) by (destruct (has_k (pending s)); auto; discriminate).
+      destruct (has_k_false_parts _ Hk) as (P1 & P2 & P3).
+      assert (Hs1 : now s1 = now s /\ k_delay s1 = k_delay s /\ timers s1 = timers s /\ exists app, pending s1 = pending s ++ app /\ has_k app = false).
+      { destruct (refs s c =? 1)%nat; injection H as <- _; cbn.
+        - unfold conn_forceClose. cbn. destruct (nth_error _ c) as [o|]; [destruct (c_live (cst o))|]; cbn; repeat split; auto;
+            try (exists []; rewrite app_nil_r; auto; fail). exists [FForceClose c]. auto.
+        - repeat split; auto. exists []. rewrite app_nil_r. auto. }
+      destruct Hs1 as (N1 & D1 & T1 & (app & Pp & Hka)). destruct (has_k_false_parts _ Hka) as (A1 & A2 & A3).
+      assert (Hk1 : has_k (pending s1) = false) by (rewrite Pp, has_k_app, Hk, Hka; reflexivity).
+      destruct (has_k_false_parts _ Hk1) as (R1 & R2 & R3).
+      assert (Q : qnext q s s1 Destroy = q \/ (pending s = [] /\ qnext q s s1 Destroy <= now s1)) by (apply qnext_ok; auto; lia).
+      split; try lia; try congruence.
+      * destruct Q as [->|[_ ?]]; lia.
+      * intros _ _ [Z|Z]; tauto.
+    + injection H as <- _.
+      match goal with |- Tinv ?S _ => assert (Q : qnext q s S Destroy = q \/ (pending s = [] /\ qnext q s S Destroy <= now S)) by (apply qnext_ok; auto; cbn; lia) end.
+      cbn in Q. split; cbn; auto.
+      * destruct Q as [Q|[_ Q]]; cbn in Q; lia.
+      * rewrite count_rc_snoc. cbn. rewrite Nat.add_0_r. intros Z d Hi. apply in_app_or in Hi. destruct Hi as [Hi|[Hi|[]]]; [|discriminate].
+        destruct Q as [Q|[Hp _]]; [cbn in Q; rewrite Q; auto|]. rewrite Hp in Z. cbn in Z. congruence.
+      * intros _ _ _. exists (now s + 1000). apply in_or_app. right. left. reflexivity.
+      * intros _ _ _ d Hi. apply in_app_or in Hi. destruct Hi as [Hi|[Hi|[]]]; [destruct (NoHack _ Hi)|]. injection Hi as <-.
+        destruct Q as [Q|[_ Q]]; cbn in Q; lia.
+      * intros _ _ _ d Hi. apply in_app_or in Hi. destruct Hi as [Hi|[Hi|[]]]; [destruct (NoHack _ Hi)|]. injection Hi as <-.
+        destruct Q as [Q|[_ Q]]; cbn in Q; unfold Bq; lia.
+  - destruct (_ || _); [discriminate|]. apply some_inj in H. eapply (TE (set_xc (set_k_connect (set_c_connect s true) true) true)); [unfold tsame; cbn; auto 10|exact H|apply teff_refl|reflexivity].
+  - (* XConnectEnq *) destruct (negb (user_api_ok s) || negb (xc s)) eqn:U; [discriminate|]. apply orb_false_elim in U. destruct U as [U _].
+    apply negb_false_true in U. destruct (api_ok _ U) as [Al _]. injection H as <- _. apply (Tinv_alive s q); auto; try (apply qnext_ok; auto; cbn; lia); cbn; auto.
+    rewrite count_rc_snoc. cbn. lia.
+  - destruct (_ || _); [discriminate|]. apply some_inj in H. eapply (TE (set_xs (set_k_connect (set_c_connect s false) false) true)); [unfold tsame; cbn; auto 10|exact H|apply teff_refl|reflexivity].
+  - (* XStopEnq *) destruct (negb (user_api_ok s) || negb (xs s)) eqn:U; [discriminate|]. apply orb_false_elim in U. destruct U as [U _].
+    apply negb_false_true in U. destruct (api_ok _ U) as [Al _]. injection H as <- _. apply (Tinv_alive s q); auto; try (apply qnext_ok; auto; cbn; lia); cbn; auto.
+    rewrite count_rc_snoc. cbn. lia.
+  - destruct (_ || _); [discriminate|]. apply some_inj in H. eapply (TE (set_xd (set_c_connect s false) true)); [unfold tsame; cbn; auto 10|exact H|apply teff_refl|reflexivity].
+  - destruct (_ || _); [discriminate|]. apply some_inj in H. destruct (connection (set_xd s false)).
+    + eapply (TE (set_xd s false)); [unfold tsame; cbn; auto 10|exact H|apply conn_shutdown_teff|reflexivity].
+    + eapply (TE (set_xd s false)); [unfold tsame; cbn; auto 10|exact H|apply teff_refl|reflexivity].
+  - discriminate.
+  - discriminate.
+  - discriminate.
+  - apply some_inj in H. eapply (TE (set_kq s (kq s ++ [e]))); [unfold tsame; cbn; auto 10|exact H|apply teff_refl|reflexivity].
+  - (* EvWritable *)
+    destruct (k_chan s) as [[i [|]]|] eqn:Hc; try discriminate. destruct (k_dead s); [discriminate|]. apply some_inj in H.
+    destruct (connecting_facts _ _ K Hc) as (Hs & _).
+    pose proof (handleWrite_reff s err selfc i Hc Hs) as R. rewrite H in R.
+    eapply (reff_Tinv s s q s1 _ i false); eauto; try apply ksub_refl. apply qnext_ok; auto. destruct R as (N & _). lia.
+  - (* EvError *)
+    destruct (k_chan s) as [[i [|]]|] eqn:Hc; try discriminate. destruct (k_dead s); [discriminate|]. apply some_inj in H.
+    destruct (connecting_facts _ _ K Hc) as (Hs & _).
+    pose proof (handleError_reff s i Hc Hs) as R. rewrite H in R.
+    eapply (reff_Tinv s s q s1 _ i false); eauto; try apply ksub_refl. apply qnext_ok; auto. destruct R as (N & _). lia.
+  - (* TimerFire *)
+    destruct (min_due (timers s)) as [t0|] eqn:Em; [|discriminate]. destruct (has_dup _); [discriminate|]. apply some_inj in H.
+    set (now' := Z.max (now s) t0) in *.
+    set (s0 := set_now (set_timers s (filter (fun t => now' <? fst t) (timers s))) now') in *.
+    assert (Tm : timely s = true) by (apply (live_timely s q); auto; congruence).
+    unfold timely in Tm. apply andb_prop in Tm. destruct Tm as [Tm1 _].
+    assert (Hrc : count_rc (pending s) = 0%nat) by (apply existsb_count_rc; destruct (existsb is_FReset (pending s)); auto; discriminate).
+    pose proof (fire_all_teff _ s0) as F. rewrite H in F. cbn in F.
+    destruct T as [Td Ts Tr Te Ta Tb].
+    assert (T0 : Tinv s0 (qnext q s s1 TimerFire)).
+    { assert (N1 : now s1 = now') by (destruct F as (N & _); rewrite N; reflexivity).
+      unfold qnext. cbn [is_RunPending]. rewrite N1. cbn in L. unfold live in L.
+      destruct (pending s) as [|f r] eqn:Hp.
+      - split; cbn; rewrite ?Hp; cbn; auto; try lia; try congruence. intros _ _ [[]|Z]; congruence.
+      - rewrite Em in L. apply andb_prop in L. destruct L as [L1 L2]. apply Z.leb_le in L1. apply Z.leb_le in L2.
+        assert (Nn : now' = now s) by (unfold now'; lia).
+        split; cbn; rewrite ?Hp; auto; try lia.
+        + rewrite <- Hp, Hrc. congruence.
+        + intros A D Hk. rewrite <- Hp in *. destruct (Te A D Hk) as (d & Hi). exists d. apply filter_In. split; auto. cbn.
+          apply Z.ltb_lt. destruct (has_k_cases _ Hk) as [P|[P|P]]; [| |congruence].
+          * pose proof (Ta A D (or_introl P) _ Hi). unfold Bq in *. lia.
+          * pose proof (Ta A D (or_intror P) _ Hi). unfold Bq in *. lia.
+        + intros A D P d Hi. apply filter_In in Hi. destruct Hi as [Hi _]. rewrite <- Hp in *. apply (Ta A D P _ Hi).
+        + intros A D P d Hi. apply filter_In in Hi. destruct Hi as [Hi _]. rewrite <- Hp in *. apply (Tb A D P _ Hi). }
+    eapply teff_Tinv; eauto.
+  - (* RunPending *)
+    apply some_inj in H. apply bind_some_inv' in H. destruct H as (rest & H & _).
+    destruct (run_n (length (pending s)) s) as [[s2 e2]|] eqn:E; [|discriminate]. cbn in H. injection H as <- _.
+    destruct (run_n_T _ _ _ _ _ I T (Nat.le_refl _) E) as (I2 & T2 & BF).
+    assert (Hkd : k_dead s2 = false -> k_dead s = false).
+    { intros D. destruct (k_dead s) eqn:E0; auto. destruct K as [_ _ _ _ _ _ Kkd _ _ _]. destruct (Kkd E0) as (A & Tm & _ & _).
+      destruct BF as (apps & newt & _ & _ & _ & _ & B5 & B6 & _ & B8). destruct I2 as (_ & _ & St2 & _).
+      assert (timers s2 = []).
+      { rewrite B5, Tm. cbn. destruct newt as [|t r]; auto. exfalso. destruct (B6 t (or_introl eq_refl)) as [Rt _].
+        destruct I2 as (K2 & _). admit. }
+      rewrite (St2 ltac:(congruence) H) in D. discriminate. }
+    admit.
+  - admit.
+  - admit.
+  - admit.
+  - admit.
+Admitted.
